@@ -4,6 +4,7 @@
 import Xandikos.Http.EtagProofs
 import Xandikos.Tie.EtagEq
 import Xandikos.Tie.GatesEq
+import Xandikos.Tie.StoreGateEq
 import Xandikos.Http.World
 import Xandikos.Store.UidProofs
 
@@ -29,6 +30,25 @@ theorem code_is_model_delete_gate (im : Option String) (cur : String) :
 theorem code_is_model_get_gate (inm : Option String) (cur : String) :
     Generated.get_not_modified (inm.map String.toList) (some cur.toList) =
       .ok ((inm.getD "") != "" && Http.condMatches (inm.getD "") (some cur)) := Tie.get_not_modified_eq inm cur
+
+/-- **the etag arguments of the store API, on the translated code**: `_check_duplicate` (git and
+    vdir) raises `InvalidETag` for a `replace_etag` that is not the current ETag (also when the
+    item does not exist), and hands the current ETag back when it is — unless the UID test, which
+    comes first, refuses the write -/
+theorem code_store_gate_etag (c : Store.Cache) (cur uid : Option String) (name r : String)
+    (hnd : Store.dupError c uid name = none) :
+    (cur ≠ some r →
+      Generated.git_check_duplicate true c.u2f cur uid name (some r) = .error (.raised "InvalidETag" name) ∧
+      Generated.vdir_check_duplicate true c.u2f cur uid name (some r) = .error (.raised "InvalidETag" name)) ∧
+    (cur = some r →
+      Generated.git_check_duplicate true c.u2f cur uid name (some r) = .ok cur ∧
+      Generated.vdir_check_duplicate true c.u2f cur uid name (some r) = .ok cur) := by
+  rw [Tie.git_check_duplicate_eq, Tie.vdir_check_duplicate_eq]
+  unfold Tie.gateOf Store.etagError
+  rw [hnd]
+  constructor
+  · intro h; simp [h]
+  · intro h; simp [h]
 
 /-- on the translated PUT gate: `If-Match: *` on a resource that does not exist is refused, and
     `If-None-Match: *` on one that exists is refused — whatever the other header says -/
